@@ -1,5 +1,5 @@
 (* C04 - Bob and Single act exactly at the next call position, exactly once. *)
-From Wh Require Import Prelude Permute PN Gens PermuteP GensP CallsP FactsP.
+From Wh Require Import Prelude Permute PN Gens PermuteP GensP CallsP EmptyCallP FactsP.
 
 (* the complete decision rule of one step, for every method, call dictionary, start index, row
    index, flag combination and call in progress *)
@@ -83,3 +83,20 @@ Theorem C04_dixon_call_waits : forall plain bob single stage prev st leading,
               end
     end.
 Proof. exact dixon_call_waits. Qed.
+
+(* a call for which the method defines NO position at all (Stedman Doubles' Bob; "bob": {} in a JSON definition)
+   never acts - with it pending every change is the plain method's - and an explicitly empty definition is kept
+   by the constructor, not replaced by the default lead-end call *)
+Theorem C04_empty_bob_definition_never_acts : forall c stage prev index,
+  pc_method c <> [] -> pc_bobs c = [] ->
+  pn_gen_row c stage prev index true false [] =
+  do p <- nth_res (pc_method c) (lead_index c index) ;; do r <- permute stage p prev ;; Ok (r, (true, false, [])).
+Proof. exact empty_bob_definition_never_acts. Qed.
+Theorem C04_empty_single_definition_never_acts : forall c stage prev index,
+  pc_method c <> [] -> pc_singles c = [] ->
+  pn_gen_row c stage prev index false true [] =
+  do p <- nth_res (pc_method c) (lead_index c index) ;; do r <- permute stage p prev ;; Ok (r, (false, true, [])).
+Proof. exact empty_single_definition_never_acts. Qed.
+Theorem C04_explicit_empty_definition_is_kept : forall stage m s si custom g c,
+  mk_pn_gen stage m (Some []) s si custom = Ok g -> g_kind g = GPN c -> pc_bobs c = [].
+Proof. exact explicit_empty_definition_is_kept. Qed.
